@@ -196,6 +196,31 @@ def build_mt(config="tsan"):
     return build_engine(config, "mt", ["mt.c", "msg.c"])
 
 
+def build_examples(config="asan"):
+    """The repository's own example programs linked against the interposed library, main renamed (src/exdrv.c)."""
+    cfg = CONFIGS[config]
+    bdir = os.path.join(BUILD, config)
+    lib = build_lib(config)
+    exdir = os.path.join(REPO, "reproc", "examples")
+    names = [n for n in ("drain", "env", "parent", "path", "poll", "read", "run") if os.path.exists(os.path.join(exdir, n + ".c"))]
+    drv = os.path.join(SRC, "exdrv.c")
+    digest = _hash([os.path.join(exdir, n + ".c") for n in names] + [drv, lib, os.path.join(bdir, "wrap.o")], " ".join(cfg["cflags"]))
+    stamp = os.path.join(bdir, "examples.stamp")
+    outs = {n: os.path.join(bdir, "ex_" + n) for n in names}
+    if all(os.path.exists(o) for o in outs.values()) and _stamp_ok(stamp, digest):
+        return outs
+    drv_o = os.path.join(bdir, "exdrv.o")
+    run([cfg["cc"]] + cfg["cflags"] + ["-I" + SRC, "-c", drv, "-o", drv_o])
+    for n in names:
+        o = os.path.join(bdir, "ex_%s.o" % n)
+        run([cfg["cc"]] + cfg["cflags"] + ["-std=c99", "-w", "-Dmain=example_main", '-DRESOURCE_DIRECTORY="/usr/bin"'] +   # the env example runs RESOURCE_DIRECTORY/env
+            LIB_INC + ["-c", os.path.join(exdir, n + ".c"), "-o", o])
+        run([cfg["cc"]] + cfg["ldflags"] + [drv_o, o, os.path.join(bdir, "wrap.o"), lib, "-o", outs[n] + ".tmp", "-lpthread"])
+        os.replace(outs[n] + ".tmp", outs[n])
+    open(stamp, "w").write(digest)
+    return outs
+
+
 def build_rt(config="asan"):
     return build_engine(config, "rt", ["rt.c", "msg.c"])
 
